@@ -8,6 +8,9 @@ From LMBase Require Import Res.
 From LMTransfac Require Import Bytes Stream Nom TransfacParse TransfacReader TransfacPrint Checkers.
 From LMTransfac Require Import StreamProofs NomProofs ParseProofs ParseRoundTrip CellProofs ReaderProofs CheckProofs
   ReaderRoundTrip.
+From Coq Require Import ZArith.
+From LMBase Require Import IEEE.
+From LMTransfac Require Import TransfacFreq FreqProofs TransfacPoll PollProofs.
 Import ListNotations.
 
 (* ---- the "schedules" quantifier: all chunkings of the same bytes ---- *)
@@ -120,6 +123,73 @@ Proof.
   rewrite <- (map_map (expected_record al) (fun r => BRec (observe_record r))).
   apply check_c14_complete.
 Qed.
+
+(* ---- round 3: "... then signals the end of input" -- and keeps signalling it: a consumer that
+   goes on calling `next` after the end of a well-formed file gets the end of input every time ---- *)
+Theorem reader_roundtrip_post :
+  forall (al : alpha) (vv : option str) (crlf fnl : bool) (rs : list prec) (s : stream) (post : nat),
+  wf_file al vv rs = true ->
+  concat s = print_file vv crlf fnl rs ->
+  run_reader_post (parse_record_fixed al) post s
+    = Ok (map (fun r => ORec (expected_record al r)) rs ++ OEnd :: repeat OEnd post).
+Proof.
+  intros al vv crlf fnl rs s post W E.
+  destruct (run_reader_post_total (parse_record_fixed al) (ParseProofs.parse_record_fixed_total al) post s) as (l & H & _).
+  destruct (run_reader_post_prefix _ _ _ _ H) as (l0 & tail & H0 & ->).
+  rewrite (reader_roundtrip_lemma al vv crlf fnl rs s W E) in H0. injection H0 as <-.
+  rewrite H. f_equal. rewrite <- app_assoc. cbn [app]. do 2 f_equal.
+  apply (run_reader_post_end_final (parse_record_fixed al) (ParseProofs.parse_record_fixed_total al) post s _
+           (map (expected_record al) rs) tail H).
+  rewrite <- app_assoc, map_map. reflexivity.
+Qed.
+
+(* the extracted checker of such a consumer's observations (post = 0: check_c14) is sound, and the
+   model passes it on every well-formed file *)
+Theorem check_c14p_sound : forall (expected : list record) (post : nat) (o : list obs),
+  check_c14p expected post o = true ->
+  o = map (fun r => BRec (observe_record r)) expected ++ BEnd :: repeat BEnd post.
+Proof. exact PollProofs.check_c14p_sound. Qed.
+
+Theorem check_c14p_is_check_c14 : forall (expected : list record) (o : list obs),
+  check_c14p expected 0 o = check_c14 expected o.
+Proof. exact check_c14p_0. Qed.
+
+Theorem model_passes_c14p :
+  forall (al : alpha) (vv : option str) (crlf fnl : bool) (rs : list prec) (s : stream) (post : nat),
+  wf_file al vv rs = true -> concat s = print_file vv crlf fnl rs ->
+  check_c14p (map (expected_record al) rs) post
+    (observe_run (run_reader_post (parse_record_fixed al) post s)) = true.
+Proof.
+  intros al vv crlf fnl rs s post Hw Hs. rewrite (reader_roundtrip_post al vv crlf fnl rs s post Hw Hs).
+  cbn [observe_run]. rewrite map_app, !map_map. cbn [map observe].
+  rewrite <- (map_map (expected_record al) (fun r => BRec (observe_record r))).
+  replace (map observe (repeat OEnd post)) with (repeat BEnd post)
+    by (induction post as [|k IH]; cbn [repeat map observe]; [reflexivity|rewrite <- IH; reflexivity]).
+  apply check_c14p_complete.
+Qed.
+
+(* ---- round 3: Record::to_freq (scalar pseudocount) of a loaded matrix, TransfacFreq.v ---- *)
+
+(* a returned frequency matrix has one row per row of the loaded matrix, each with the K columns
+   of the alphabet (rows of the loaded matrix have K cells) ... *)
+Theorem to_freq_shape : forall (al : alpha) (c : F32.t) (m m' : list (list F32.t)),
+  to_freq al c m = Some m' ->
+  Forall2 (fun r r' => length r' = Nat.min (length r) (alpha_k al)) m m'.
+Proof. exact to_freq_shape_lemma. Qed.
+
+(* ... and every row passed the check of FrequencyMatrix::new: its binary32 sum (column order)
+   is within 0.01 of 1 -- rows with NaN / infinite / all-zero sums give None, never a matrix *)
+Theorem to_freq_rows_normalised : forall (al : alpha) (c : F32.t) (m m' : list (list F32.t)),
+  to_freq al c m = Some m' -> Forall (fun r => freq_row_ok r = true) m'.
+Proof. exact to_freq_rows_ok. Qed.
+
+(* counts 1 2 2 0 (+0 for N): frequencies 0.2 0.4 0.4 0 0; an all-zero row: no matrix *)
+Example ex_to_freq :
+  to_freq_bits Dna 0%Z [[1065353216; 1073741824; 1073741824; 0; 0]%Z]
+    = Some [[1045220557; 1053609165; 1053609165; 0; 0]%Z] /\
+  to_freq_bits Dna 0%Z [[0; 0; 0; 0; 0]%Z] = None /\
+  to_freq_bits Dna 1056964608%Z [[0; 0; 0; 0; 0]%Z] <> None.
+Proof. repeat split; vm_compute; congruence. Qed.
 
 Check reader_roundtrip : forall al vv crlf fnl rs s,
   wf_file al vv rs = true -> concat s = print_file vv crlf fnl rs ->
